@@ -1033,7 +1033,17 @@ impl<'info> Evaluator {
         if let Some((cond, iftrue, iffalse)) = match_i_op(maybe_condition.clone()) {
             let x_head = Rc::new(BodyForm::Value(SExp::Atom(cond.loc(), vec![b'x'])));
             let apply_head = Rc::new(BodyForm::Value(SExp::Atom(iftrue.loc(), vec![2])));
-            let where_from = cond.loc().to_string();
+            // Identify this conditional by where its condition came from and
+            // by what its branches say.  Nested conditionals often test the
+            // same expression, and locations inside macro expansions repeat,
+            // but a conditional met again through recursion has the same
+            // branches.
+            let where_from = format!(
+                "{}|{}|{}",
+                cond.loc(),
+                iftrue.to_sexp(),
+                iffalse.to_sexp()
+            );
             let where_from_vec = where_from.as_bytes().to_vec();
 
             if let Some(present) = visited.get_function(&where_from_vec) {
